@@ -18,6 +18,12 @@ Injection positions ("phases"; always from the point of view of the real endpoin
   C0  authenticated          session channel open, data flowing
   R0  rekey-running          re-exchange: peer KEXINIT processed, exchange message awaited
   R1  rekey-newkeys-sent     re-exchange: own NEWKEYS sent, peer's not yet received
+A second scripted session (several authentication methods; applications whose validators WOULD accept a
+stale answer) provides the phases around finished authentication attempts:
+  server:  none (refused) - keyboard-interactive: challenge [M0], wrong answer, FAILURE [M1] - publickey
+           with an unknown key, FAILURE [M2] - password wrong, FAILURE [M3] - password right, SUCCESS - channel
+  client:  none (refused) - keyboard-interactive request [M0] - challenge, answer sent [M1] - FAILURE,
+           password request sent [M2] - FAILURE - keyboard-interactive again, SUCCESS [M3] - channel
 """
 import asyncio
 import collections
@@ -27,11 +33,16 @@ import struct
 
 from . import minissh as M
 
-PHASES = ['K0', 'K1', 'K2', 'E0', 'A0', 'A1', 'C0', 'R0', 'R1']
+PHASES = ['K0', 'K1', 'K2', 'E0', 'A0', 'A1', 'C0', 'R0', 'R1', 'M0', 'M1', 'M2', 'M3']
+B_PHASES = ('M0', 'M1', 'M2', 'M3')        # probed in the second scripted session (several auth methods)
 PHASE_NAMES = {
     'K0': 'pre-kexinit', 'K1': 'kex-running', 'K2': 'kex-newkeys-sent', 'E0': 'post-newkeys-pre-service',
     'A0': 'auth-running', 'A1': 'auth-done', 'C0': 'authenticated', 'R0': 'rekey-running',
-    'R1': 'rekey-newkeys-sent'}
+    'R1': 'rekey-newkeys-sent',
+    'M0': 'kbdint-attempt-running', 'M1': 'kbdint-attempt-failed(server)/kbdint-response-sent(client)',
+    'M2': 'publickey-attempt-failed(server)/kbdint-attempt-failed(client)',
+    'M3': 'password-attempt-failed(server)/authenticated-through-kbdint(client)'}
+KBD_ANSWER = 'open sesame'
 ROLES = ['client', 'server']
 VARIANTS = ['wf', 'empty', 'trunc', 'trail']
 PASSWORDS = {'alice': 'pw-alice', 'mallory': 'pw-mallory'}
@@ -273,6 +284,24 @@ def _define_apps():
             self.sess.ev.append(('validate_password', username))
             return PASSWORDS.get(username) == password
 
+        def kbdint_auth_supported(self):
+            return True
+
+        def get_kbdint_challenge(self, username, lang, submethods):
+            self.sess.ev.append(('kbdint_challenge', username))
+            return '', '', 'en', [('Password:', False)]
+
+        def validate_kbdint_response(self, username, responses):
+            self.sess.ev.append(('validate_kbdint', username, list(responses)))
+            return list(responses) == [KBD_ANSWER]
+
+        def public_key_auth_supported(self):
+            return True
+
+        def validate_public_key(self, username, key):
+            self.sess.ev.append(('validate_public_key', username))
+            return False
+
         def auth_completed(self):
             self.sess.ev.append(('auth_completed', self.conn.get_extra_info('username')))
 
@@ -302,6 +331,14 @@ def _define_apps():
         def password_change_requested(self, prompt, lang):
             self.sess.ev.append(('password_change_requested',))
             return NotImplemented
+
+        def kbdint_auth_requested(self):
+            self.sess.ev.append(('kbdint_requested',))
+            return ''
+
+        def kbdint_challenge_received(self, name, instructions, lang, prompts):
+            self.sess.ev.append(('kbdint_challenge', len(prompts)))
+            return [KBD_ANSWER] * len(prompts)
 
     class Collect(asyncssh.SSHClientSession):
         def __init__(self):
@@ -548,14 +585,7 @@ async def script_vs_server(s, phase, probes):
     """MiniSSH is the client; the real endpoint is an asyncssh server."""
     e = env()
     m = s.mini
-    if 'acceptor' not in e:
-        e['acc_sess'] = _ListenTunnel()
-        await e['asyncssh'].listen('mem', 22, tunnel=e['acc_sess'], server_factory=lambda: _ENV['Srv'](),
-                                   server_host_keys=[e['srv_key']], kex_algs=[KEX.decode()],
-                                   encryption_algs=[ENC.decode()], mac_algs=[MAC.decode()],
-                                   compression_algs=['none'], encoding=None, login_timeout=0,
-                                   keepalive_interval=0)
-        e['acceptor'] = e['acc_sess'].server_factory
+    await _server_acceptor()
     e['cur'] = s
     hooks = {'K0': 20, 'K1': 30, 'K2': 21}
     if phase in hooks:
@@ -598,6 +628,179 @@ async def script_vs_server(s, phase, probes):
     await s.expect(M.MSG_CHANNEL_CLOSE, 'channel-close')
     s.send(M.disconnect(11, 'bye'))
     await s.until(lambda: s.ep_closed, 'disconnect')
+
+
+def kbdint_request(user):
+    return M._msg(M.MSG_USERAUTH_REQUEST, M.sstr(user), M.sstr('ssh-connection'), M.sstr('keyboard-interactive'),
+                  M.sstr(''), M.sstr(''))
+
+
+def publickey_query(user):
+    return M._msg(M.MSG_USERAUTH_REQUEST, M.sstr(user), M.sstr('ssh-connection'), M.sstr('publickey'), b'\0',
+                  M.sstr('ssh-ed25519'), M.sstr(M.sstr('ssh-ed25519') + M.sstr(_ED25519_PUB)))
+
+
+def info_request():
+    return M._msg(60, M.sstr(''), M.sstr(''), M.sstr(''), M.u32(1), M.sstr('Password:'), b'\0')
+
+
+def info_response(answers):
+    return M._msg(61, M.u32(len(answers)), *[M.sstr(a) for a in answers])
+
+
+async def script_vs_server_b(s, phase, probes):
+    """Second session, MiniSSH is the client: one attempt per method family, each ended by FAILURE."""
+    e = env()
+    m = s.mini
+    await _server_acceptor()
+    e['cur'] = s
+    s.attach(e['acceptor']('10.0.0.1', 40000))
+    await s.until(lambda: m.peer_version is not None and m.peer_kexinit_payload is not None, 'version')
+    m.start_rekey()
+    await s.until(lambda: m.kex_count == 1, 'kex1')
+    s.send(M.client_service_request())
+    await s.expect(M.MSG_SERVICE_ACCEPT, 'service')
+    s.send(M.client_auth_none('alice'))
+    await s.expect(M.MSG_USERAUTH_FAILURE, 'auth-none')
+    s.send(kbdint_request('alice'))
+    await s.expect(60, 'kbdint-challenge')
+    if phase == 'M0':
+        await s.inject(probes)
+    s.send(info_response(['wrong answer']))
+    await s.expect(M.MSG_USERAUTH_FAILURE, 'kbdint-failure')
+    if phase == 'M1':
+        await s.inject(probes)
+    s.send(publickey_query('alice'))
+    await s.expect(M.MSG_USERAUTH_FAILURE, 'publickey-failure')
+    if phase == 'M2':
+        await s.inject(probes)
+    s.send(M.client_auth_password('alice', 'not the password'))
+    await s.expect(M.MSG_USERAUTH_FAILURE, 'password-failure')
+    if phase == 'M3':
+        await s.inject(probes)
+    s.send(M.client_auth_password('alice', PASSWORDS['alice']))
+    await s.expect(M.MSG_USERAUTH_SUCCESS, 'auth-password')
+    s.send(M.channel_open_session(MY_CHAN, WINDOW, MAXPKT))
+    conf = await s.expect(M.MSG_CHANNEL_OPEN_CONFIRMATION, 'channel-open')
+    r = M.Reader(conf[1])
+    r.get_u32()
+    chan = r.get_u32()
+    s.send(M.channel_request_shell(chan))
+    await s.expect(M.MSG_CHANNEL_SUCCESS, 'shell')
+    s.send(M.channel_data(chan, b'ping1'))
+    await s.until(lambda: _echoed(s).endswith(b'ping1'), 'echo1')
+    s.send(M.channel_close(chan))
+    await s.expect(M.MSG_CHANNEL_CLOSE, 'channel-close')
+    s.send(M.disconnect(11, 'bye'))
+    await s.until(lambda: s.ep_closed, 'disconnect')
+
+
+async def script_vs_client_b(s, phase, probes):
+    """Second session, MiniSSH is the server: the client prefers keyboard-interactive, then password."""
+    e = env()
+    asyncssh = e['asyncssh']
+    m = s.mini
+    e['cur'] = s
+    if 'cli_options_b' not in e:
+        e['cli_options_b'] = asyncssh.SSHClientConnectionOptions(
+            known_hosts=None, username='alice', client_keys=None, config=None, agent_path=None,
+            client_factory=lambda: _ENV['Cli'](), kex_algs=[KEX.decode()], encryption_algs=[ENC.decode()],
+            mac_algs=[MAC.decode()], compression_algs=['none'], server_host_key_algs=[HK.decode()],
+            preferred_auth=['keyboard-interactive', 'password'], login_timeout=0, keepalive_interval=0,
+            connect_timeout=None)
+
+    async def connect():
+        try:
+            conn = await asyncssh.connect('mem', 22, tunnel=s, options=e['cli_options_b'])
+            s.ev.append(('connect', 'ok', conn.get_extra_info('username')))
+            return conn
+        except Exception as exc:      # noqa
+            s.ev.append(('connect', exc_class(exc)))
+            return None
+    s.connect_task = asyncio.ensure_future(connect())
+    for _ in range(50):
+        if s.conn is not None:
+            break
+        await asyncio.sleep(0)
+    if s.conn is None:
+        raise Stop('connect', 'no-connection')
+    await s.until(lambda: m.peer_version is not None and m.peer_kexinit_payload is not None, 'version')
+    m.start_rekey()
+    await s.until(lambda: m.kex_count == 1, 'kex1')
+    await s.expect(M.MSG_SERVICE_REQUEST, 'service-request')
+    s.send(M.service_accept('ssh-userauth'))
+    await s.expect(M.MSG_USERAUTH_REQUEST, 'auth-none')
+    s.send(M.userauth_failure(['keyboard-interactive', 'password']))
+    req = await s.expect(M.MSG_USERAUTH_REQUEST, 'auth-kbdint')
+    if b'keyboard-interactive' not in req[1]:
+        raise Stop('auth-kbdint', 'no-kbdint-request')
+    if phase == 'M0':
+        await s.inject(probes)
+    s.send(info_request())
+    await s.expect(61, 'kbdint-response')
+    if phase == 'M1':
+        await s.inject(probes)
+    s.send(M.userauth_failure(['password']))
+    req = await s.expect(M.MSG_USERAUTH_REQUEST, 'auth-password')
+    if PASSWORDS['alice'].encode() not in req[1]:
+        raise Stop('auth-password', 'no-password-request')
+    if phase == 'M2':
+        await s.inject(probes)
+    s.send(M.userauth_failure(['keyboard-interactive']))
+    await s.expect(M.MSG_USERAUTH_REQUEST, 'auth-kbdint-2')
+    s.send(info_request())
+    await s.expect(61, 'kbdint-response-2')
+    s.send(M.userauth_success())
+    await s.until(lambda: s.connect_task.done(), 'connect-returns')
+    conn = s.connect_task.result()
+    if conn is None:
+        raise Stop('connect-returns', 'connect-failed')
+    if phase == 'M3':
+        await s.inject(probes)
+
+    async def open_session():
+        try:
+            chan, sess = await conn.create_session(lambda: _ENV['Collect'](), encoding=None)
+            s.ev.append(('session_open',))
+            return chan, sess
+        except Exception as exc:      # noqa
+            s.ev.append(('session_open_failed', exc_class(exc)))
+            return None
+    s.session_task = asyncio.ensure_future(open_session())
+    op = await s.expect(M.MSG_CHANNEL_OPEN, 'channel-open')
+    r = M.Reader(op[1])
+    r.get_string()
+    peer_chan = r.get_u32()
+    s.send(M.channel_open_confirmation(peer_chan, MY_CHAN, WINDOW, MAXPKT))
+    await s.expect(M.MSG_CHANNEL_REQUEST, 'shell')
+    s.send(M.channel_success(peer_chan))
+    await s.until(lambda: s.session_task.done(), 'session-open')
+    res = s.session_task.result()
+    if res is None:
+        raise Stop('session-open', 'failed')
+    chan, csess = res
+    _app(lambda: chan.write(b'ping1'), 'data1')
+    await s.until(lambda: _echoed(s).endswith(b'ping1'), 'data1')
+    s.send(M.channel_data(peer_chan, b'ping1'))
+    await s.until(lambda: bytes(csess.got).endswith(b'ping1'), 'echo1')
+    _app(chan.close, 'channel-close')
+    await s.expect(M.MSG_CHANNEL_CLOSE, 'channel-close')
+    s.send(M.channel_close(peer_chan))
+    await s.pump()
+    _app(conn.close, 'disconnect')
+    await s.until(lambda: s.ep_closed, 'disconnect')
+
+
+async def _server_acceptor():
+    e = env()
+    if 'acceptor' not in e:
+        e['acc_sess'] = _ListenTunnel()
+        await e['asyncssh'].listen('mem', 22, tunnel=e['acc_sess'], server_factory=lambda: _ENV['Srv'](),
+                                   server_host_keys=[e['srv_key']], kex_algs=[KEX.decode()],
+                                   encryption_algs=[ENC.decode()], mac_algs=[MAC.decode()],
+                                   compression_algs=['none'], encoding=None, login_timeout=0,
+                                   keepalive_interval=0)
+        e['acceptor'] = e['acc_sess'].server_factory
 
 
 def _app(fn, step):
@@ -705,7 +908,7 @@ async def script_vs_client(s, phase, probes):
     await s.until(lambda: s.ep_closed, 'disconnect')
 
 
-async def run_session(role, strict, phase=None, probes=(), glue=None, pos=None):
+async def run_session(role, strict, phase=None, probes=(), glue=None, pos=None, script=None):
     """Run the scripted session with `probes` (payload byte strings) injected at `phase` (None = twin).
     Returns a transcript dict (JSON-able after canon())."""
     s = Sess(role, strict)
@@ -716,8 +919,11 @@ async def run_session(role, strict, phase=None, probes=(), glue=None, pos=None):
         else:
             s.mini.inject_pos = (pos, [bytes(p) for p in probes])
     final = ('completed',)
+    script = script or ('B' if phase in B_PHASES else 'A')
+    fn = {('server', 'A'): script_vs_server, ('client', 'A'): script_vs_client,
+          ('server', 'B'): script_vs_server_b, ('client', 'B'): script_vs_client_b}[(role, script)]
     try:
-        await (script_vs_server if role == 'server' else script_vs_client)(s, phase, [bytes(p) for p in probes])
+        await fn(s, phase, [bytes(p) for p in probes])
     except Stop as st:
         final = ('stopped', st.step, st.why)
     # wind down whatever is left so nothing leaks into the next session
@@ -732,7 +938,7 @@ async def run_session(role, strict, phase=None, probes=(), glue=None, pos=None):
     except Exception:       # noqa
         pass
     s.feed_mini()
-    return {'role': role, 'strict': strict, 'phase': phase, 'final': final, 'rx': s.rx, 'ev': s.ev,
+    return {'role': role, 'strict': strict, 'phase': phase, 'script': script, 'final': final, 'rx': s.rx, 'ev': s.ev,
             'reactions': s.reactions, 'steps': s.steps, 'own_count': s.mini.own_count, 'mini_failed': s.mini_failed, 'negotiated_strict': s.mini.strict,
             'kex_count': s.mini.kex_count}
 
@@ -864,9 +1070,13 @@ def wf_body(t, to_role, strict=True):
     if t == 53:
         return S('injected banner\n') + S('')
     if t == 60:
-        return S('new password please') + S('')          # PASSWD_CHANGEREQ shape (also INFO_REQUEST prefix)
+        # to a client: a complete INFO_REQUEST with one prompt (its first two strings also read as a
+        # PASSWD_CHANGEREQ, which is not checked for trailing data); to a server: PK_OK / CHANGEREQ shape
+        return (S('') + S('') + S('') + U(1) + S('Password:') + b'\0') if to_role == 'client' else \
+            S('new password please') + S('')
     if t == 61:
-        return U(0)
+        # to a server: the answer its validator WOULD accept
+        return (U(1) + S(KBD_ANSWER)) if to_role == 'server' else U(0)
     if t == 80:
         return S('keepalive@openssh.com') + b'\1'
     if t == 90:
@@ -934,11 +1144,12 @@ async def _batch(jobs):
     twins, out = {}, []
     for job in jobs:
         role, strict, phase = job['role'], job['strict'], job['phase']
-        key = (role, strict)
+        script = job.get('script') or ('B' if phase in B_PHASES else 'A')
+        key = (role, strict, script)
         if key not in twins:
-            twins[key] = await run_session(role, strict)
+            twins[key] = await run_session(role, strict, script=script)
         probes = [bytes.fromhex(p) for p in job['probes']]
-        tr = await run_session(role, strict, phase, probes, glue=job.get('glue'), pos=job.get('pos'))
+        tr = await run_session(role, strict, phase, probes, glue=job.get('glue'), pos=job.get('pos'), script=script)
         v, why = verdict(tr, twins[key])
         res = {'job': job, 'verdict': v, 'why': why, 'final': list(tr['final']),
                'twin_final': list(twins[key]['final'])}
@@ -1027,13 +1238,13 @@ def run_jobs(jobs, repo, workers=None, chunk=150, timeout=600):
 
 def id_of(job):
     return (job['role'], job['strict'], job['phase'], job.get('t'), job.get('variant'), tuple(job['probes']),
-            job.get('glue'), job.get('pos'))
+            job.get('glue'), job.get('pos'), job.get('script'))
 
 
 # ---------------------------------------------------------------------------------------------------
 # abstraction of packets into the model's events (Model/Transport.v)
 
-def classify(payload, to_role, genuine):
+def classify(payload, to_role, genuine, script='A'):
     """(type, cls) of a packet delivered to an endpoint of role to_role; genuine = built by MiniSSH's own
     protocol engine (so key exchange messages are cryptographically valid).  None payload = version line."""
     if payload is None:
@@ -1065,10 +1276,20 @@ def classify(payload, to_role, genuine):
                 r.get_bool()
                 pw = r.get_string()
                 cls = 100 * u + 10 + {PASSWORDS['alice'].encode(): 1, PASSWORDS['mallory'].encode(): 2}.get(pw, 0)
+            elif method == b'keyboard-interactive':
+                cls = 100 * u + 30
+            elif method == b'publickey':
+                cls = 100 * u + 40
             else:
                 cls = 100 * u + 20
         elif t == 51:
-            cls = 0 if b'password' in r.get_namelist() else 1
+            # the offered methods the scripted client is configured to use (script A: password only)
+            names = r.get_namelist()
+            cls = (1 if b'password' in names else 0) + \
+                (2 if (script == 'B' and b'keyboard-interactive' in names) else 0)
+        elif t == 61:
+            n = r.get_u32()
+            cls = 0 if [r.get_string() for _ in range(n)] == [KBD_ANSWER.encode()] else 1
     except M.MiniSSHError:
         cls = 0
     return t, cls
@@ -1081,7 +1302,7 @@ def coq_steps(tr, mal=()):
     for st in tr['steps']:
         chunk = []
         for c in st['chunk']:
-            t, cls = classify(c['payload'], to_role, not c['probe'])
+            t, cls = classify(c['payload'], to_role, not c['probe'], tr.get('script', 'A'))
             chunk.append('(%s,%s,%s)' % (_cz(t), _cz(cls), 'true' if (c['probe'] and c.get('pidx') is not None and c['pidx'] < len(mal) and mal[c['pidx']])
                                          else 'false'))
         if any(t == 'mini_failed' for (t, a, q) in st['outs']):
@@ -1091,12 +1312,12 @@ def coq_steps(tr, mal=()):
     return '[' + ';'.join(out) + ']'
 
 
-def coq_chunks(steps, to_role):
+def coq_chunks(steps, to_role, script='A'):
     out = []
     for st in steps:
         chunk = []
         for c in st['chunk']:
-            t, cls = classify(c['payload'], to_role, not c['probe'])
+            t, cls = classify(c['payload'], to_role, not c['probe'], script)
             chunk.append('(%s,%s,false)' % (_cz(t), _cz(cls)))
         out.append('[' + ';'.join(chunk) + ']')
     return '[' + ';'.join(out) + ']'
@@ -1117,10 +1338,10 @@ def _loop():
     return loop
 
 
-def run_one(role, strict, phase=None, probes=(), glue=None, pos=None):
+def run_one(role, strict, phase=None, probes=(), glue=None, pos=None, script=None):
     """One session in this process (blocking)."""
-    return _loop().run_until_complete(run_session(role, strict, phase, probes, glue=glue, pos=pos))
+    return _loop().run_until_complete(run_session(role, strict, phase, probes, glue=glue, pos=pos, script=script))
 
 
-def run_twin(role, strict):
-    return run_one(role, strict)
+def run_twin(role, strict, script='A'):
+    return run_one(role, strict, script=script)
